@@ -19,7 +19,7 @@ def load_modules(repo=None):
 
 def load_contracts():
     contracts, fields, tags = {}, {}, {}
-    for name in ('tad', 'reverse_dfs', 'roberta_generator', 'conditionalrewards'):
+    for name in ('tad', 'reverse_dfs', 'roberta_generator', 'conditionalrewards', 'stochastic_game_from_roborta_board'):
         try:
             mod = importlib.import_module('contracts.' + name)
         except ModuleNotFoundError as e:
